@@ -174,7 +174,7 @@ def run(ctx):
     compiled = True
     for fn, (ok, _) in gen.items():
         if ok:
-            c, out, _ = ctx.coqc(os.path.join(vlib.COQ, "Gen", fn))
+            c, out, _ = ctx.coqc_gen(os.path.join(vlib.COQ, "Gen", fn))
             ctx.obligation("generated %s type-checks" % fn, "translation", c, out)
             compiled = compiled and c
     if all_gen and compiled:
